@@ -146,9 +146,8 @@ func TestC15(t *testing.T) {
 		c.Drift, c.Kinds = genDrift(r, good)
 		eval(c)
 	}
-	if rec.Get("repairs") < 500 {
-		rec.Inconclusive("fewer than 500 repairs observed")
-	}
+	// minimum-observation thresholds are run-level (all batches merged): checks_table.py min_observed, applied
+	// by the driver. A per-batch threshold here would depend on how the run is split into batches.
 }
 
 func genDrift(r *rand.Rand, good *cpumemtypes.NodeResourceInfo) (*cpumemtypes.NodeResource, []string) {
@@ -326,7 +325,5 @@ func TestC32(t *testing.T) {
 		}
 		eval(c)
 	}
-	if rec.Get("unbound_workloads_checked") < 1000 || rec.Get("fallback_all_cores_cases") < 20 {
-		rec.Inconclusive("too few unbound workloads (%d) or fallback cases (%d)", rec.Get("unbound_workloads_checked"), rec.Get("fallback_all_cores_cases"))
-	}
+	// minimum-observation thresholds are run-level (all batches merged): MIN_OBSERVED in checks_table.py, applied by the driver
 }
